@@ -9,7 +9,7 @@ use std::sync::atomic::{AtomicU64, Ordering};
 use vcore::ev::{catch, h64, Check, Ctx, Failure};
 use vcore::gen::prescribed_len;
 
-use crate::frames::{drive, drive_families, replay_family, Suite};
+use crate::frames::{drive, drive_families_with, replay_family, Suite};
 
 #[derive(Default)]
 pub struct Hist {
@@ -211,8 +211,45 @@ pub fn run(ctx: &Ctx) {
             ctx.judge(check_total(ctx, &h, &f));
         }
     }
+    // wrong lengths made from valid frames: every golden frame and one frame per shape, padded with zeros / ones /
+    // a copy of itself to every length up to 32, and cut short by 1..3 bytes
+    {
+        let mut bases = vcore::gen::golden();
+        for (i, sh) in crate::frames::base_shapes().iter().enumerate() {
+            if i % 7 == 0 || sh.df < 16 {
+                let mut r = vcore::ev::SplitMix::new(h64(&(ctx.seed, "c01-pad", i)));
+                let mut fill = [0u8; 14];
+                for b in fill.iter_mut() {
+                    *b = r.next() as u8;
+                }
+                bases.push(vcore::gen::build(sh, &fill, r.next()));
+            }
+        }
+        let mut n = 0u64;
+        for f in &bases {
+            for len in f.len() + 1..=32 {
+                for pad in 0..3u8 {
+                    let mut g = f.clone();
+                    while g.len() < len {
+                        g.push(match pad {
+                            0 => 0x00,
+                            1 => 0xff,
+                            _ => f[g.len() % f.len()],
+                        });
+                    }
+                    ctx.judge(check_total(ctx, &h, &g));
+                    n += 1;
+                }
+            }
+            for cut in 1..=3usize.min(f.len()) {
+                ctx.judge(check_total(ctx, &h, &f[..f.len() - cut]));
+                n += 1;
+            }
+        }
+        ctx.class_n("valid frames padded / cut to a wrong length", n);
+    }
     // decoding is a function of the bytes only: related inputs in several orders on one thread
-    drive_families(ctx, "c01", ctx.tier.pick(160_000, 2_400_000), &observable);
+    drive_families_with(ctx, "c01", ctx.tier.pick(160_000, 2_400_000), &observable, Some(&|f| check_total(ctx, &h, f)));
     // thorough: coverage-guided campaign (libFuzzer) with the same oracle inside the target
     crate::fuzzrun::decode_campaign(ctx, "c01", &|f| check_total(ctx, &h, f));
     export(ctx, &h);
